@@ -56,6 +56,9 @@ def gen_spec(rng):
             c = b[:3] + rng.choice(alphabet)
         else:
             c = ''.join(rng.choice(alphabet) for _ in range(4))
+        if rng.random() < 0.08:
+            # site codes are case-sensitive four-character strings: 'alic', 'Alic' and 'ALIC' are three stations
+            c = c.lower() if rng.random() < 0.6 else c[0] + c[1:].lower()
         if c not in codes:
             codes.append(c)
     stations = []
@@ -90,7 +93,7 @@ def gen_spec(rng):
     end = '%02d:%03d:%05d' % (rng.randrange(0, 30), rng.randrange(1, 366), rng.choice([0, 86370, 6, 12, 36]))
     return {'agency': rng.choice(agencies), 'data_agency': rng.choice(agencies), 'created': created, 'start': start, 'end': end,
             'technique': rng.choice('PPPCRLDM'), 'constraint': rng.choice('012'), 'velocities': vel, 'triangle': tri,
-            'stations': stations, 'cov_seed': rng.getrandbits(48),
+            'stations': stations, 'cov_seed': rng.getrandbits(48), 'type_major': vel and rng.random() < 0.12,
             'zero_frac': rng.choice([0, 0, 0.3, 0.6, 0.9]), 'cancel_lines': rng.choice([0, 0, 0, 1, 3]),
             'est_comment': rng.random() < 0.8, 'mat_comment': rng.random() < 0.7,
             'comment_block': rng.random() < 0.85, 'reference_block': rng.random() < 0.5,
@@ -155,10 +158,15 @@ class Solution(object):
         self.stations = [dict(s) for s in spec['stations']]
         self.cov = cov_matrix(spec)
         self.per = 6 if self.velocities else 3
+        # parameter order in the file: station by station (STAX..VELZ of one station together), or - for
+        # solutions with velocities - all positions first, then all velocities ('type-major').  self.cov stays
+        # in station order; file_cov() / params() give the file's order.
+        self.type_major = bool(spec.get('type_major')) and self.velocities
 
     def copy(self):
         s = Solution()
         s.velocities, s.triangle, s.per = self.velocities, self.triangle, self.per
+        s.type_major = self.type_major
         s.stations = [dict(x) for x in self.stations]
         s.cov = [row[:] for row in self.cov]
         return s
@@ -182,6 +190,7 @@ class Solution(object):
             keep_idx += [k * 6, k * 6 + 1, k * 6 + 2]
         out = self.copy()
         out.velocities = False
+        out.type_major = False
         out.per = 3
         for s in out.stations:
             s['est'] = s['est'][:3]
@@ -189,17 +198,29 @@ class Solution(object):
         out.cov = [[self.cov[i][j] for j in keep_idx] for i in keep_idx]
         return out
 
+    def perm(self):
+        """file position -> index in station order"""
+        n = len(self.stations)
+        if not self.type_major:
+            return list(range(n * self.per))
+        return [k * 6 + t for k in range(n) for t in range(3)] + [k * 6 + t for k in range(n) for t in range(3, 6)]
+
+    def file_cov(self):
+        p = self.perm()
+        return [[self.cov[i][j] for j in p] for i in p]
+
     def params(self):
         types = ['STAX', 'STAY', 'STAZ', 'VELX', 'VELY', 'VELZ'][:self.per]
         units = ['m', 'm', 'm', 'm/y', 'm/y', 'm/y']
         out = []
-        idx = 0
         for s in self.stations:
             for t in range(self.per):
-                idx += 1
-                out.append({'index': idx, 'type': types[t], 'code': s['code'], 'pt': s['pt'], 'soln': s['soln'],
+                out.append({'index': 0, 'type': types[t], 'code': s['code'], 'pt': s['pt'], 'soln': s['soln'],
                             'epoch': s['epoch'], 'unit': units[t], 'cons': '2', 'value': float(s['est'][t]),
                             'sigma': float(s['sig'][t]), 'value_str': s['est'][t], 'sigma_str': s['sig'][t]})
+        out = [out[i] for i in self.perm()]
+        for k, p in enumerate(out):
+            p['index'] = k + 1
         return out
 
 
@@ -273,7 +294,7 @@ def write_sinex(spec, sol=None):
     L += ['-SOLUTION/ESTIMATE', SEP, '+SOLUTION/MATRIX_ESTIMATE %s COVA' % sol.triangle]
     if spec.get('mat_comment', True):
         L.append(MAT_COMMENT)
-    L += matrix_lines(sol.cov, sol.triangle)
+    L += matrix_lines(sol.file_cov(), sol.triangle)
     L += ['-SOLUTION/MATRIX_ESTIMATE %s COVA' % sol.triangle]
     if spec.get('extra_blocks'):
         L += [SEP, '+SOLUTION/MATRIX_APRIORI %s COVA' % sol.triangle, MAT_COMMENT]
@@ -460,6 +481,7 @@ def compare_solution(parsed, expected, tag):
                 break
     mat = parsed.get('matrix', {})
     n = len(exp)
+    exp_cov = expected.file_cov()
     if mat.get('type') != expected.triangle:
         out.append(('covariance', tag + '/triangle-type', {'expected': expected.triangle, 'got': mat.get('type')}))
     else:
@@ -474,7 +496,7 @@ def compare_solution(parsed, expected, tag):
             for i in range(n):
                 rng_ = range(0, i + 1) if tri == 'L' else range(i, n)
                 for j in rng_:
-                    want = expected.cov[i][j]
+                    want = exp_cov[i][j]
                     gotv = ent.get((i + 1, j + 1), 0.0)   # SINEX: omitted elements are zero
                     if gotv != want:
                         bad = ('element-value', {'row': i + 1, 'col': j + 1, 'expected': want, 'got': gotv,
